@@ -1,5 +1,5 @@
 (* C12 URL building substitutes binds exactly and inverts matching. *)
-Require Import Base Route UrlPath UrlPathProofs.
+Require Import Base Regex RegexProofs SegProofs Route Tree TreeProofs TreeAdd UrlPath UrlPathProofs Inverse.
 
 (* Substitution is simultaneous: for bind names and route literals without braces (the route grammar
    allows neither), Leaf.URLPath - strings.NewReplacer over "{name}" keys applied to the route's URL
@@ -16,9 +16,35 @@ Theorem C12_replacer_is_fill : forall vals sk,
   names_ok vals -> skel_ok sk = true -> replace (bpairs vals) (render_skel sk) = fill vals sk.
 Proof. exact replace_is_fill. Qed.
 
-(* C12_inverse (building with a dispatched request's parameters reproduces the request path) is NOT
-   proved yet at route level; it is evaluated on every dispatched request of a named route by the
-   correspondence check (paths without %-escapes must be reproduced exactly). *)
+(* INVERSE of matching.  For every route whose non-final segments are not optional (C08), every form of
+   it that registration puts into the tree ([news]: the long form, and the short form when the last
+   segment is optional), every list of path segments that form admits and the parameters [ps] the
+   matcher then delivers (raw, before the single percent-decoding): filling the route's URL skeleton with
+   [ps] - with the optional segment exactly for the long form - spells the request path; and when bind
+   names and literals are brace-free (the grammar, C06) that is what Leaf.URLPath returns.
+   [compile] is the regex oracle; its results carry no capturing groups of their own (section 3). *)
+Theorem C12_inverse : forall compile, (forall src r, compile src = Some r -> gidx r = []) ->
+  forall r l ks segs ps, news compile true [] false r = Some l -> In ks l -> adm ks segs ps -> nonfinal_plain r ->
+  exists wo, fill ps (route_skel' r wo) = path_text segs /\
+             (names_ok ps -> skel_ok (route_skel' r wo) = true -> url_path r ps wo = path_text segs).
+Proof.
+  intros compile G r l ks segs ps N HIn A NP.
+  destruct (inverse_own_params compile G r l ks segs ps N HIn A NP) as [wo E]. exists wo. split; [exact E|].
+  intros Hn Hs. rewrite url_path_is_fill by assumption. exact E.
+Qed.
+
+(* the same for any supplied values that agree with the captured ones on the route's binds *)
+Theorem C12_inverse_values : forall compile, (forall src r, compile src = Some r -> gidx r = []) ->
+  forall r l ks segs ps vals, news compile true [] false r = Some l -> In ks l -> adm ks segs ps ->
+  vals_cover vals ps -> nonfinal_plain r ->
+  exists wo, fill vals (route_skel' r wo) = path_text segs.
+Proof. exact inverse_route. Qed.
+
+(* the binds along any form of a registered route are pairwise distinct, so each delivered value is
+   looked up under its own name *)
+Theorem C12_binds_distinct : forall compile r root anc aa l ks,
+  news compile root anc aa r = Some l -> In ks l -> NoDup (rbinds ks) /\ forall x, In x (rbinds ks) -> ~ In x anc.
+Proof. exact news_binds. Qed.
 
 Example C12_example :   (* /a/{x}-{y}/?{z}  with x="{y}", y="1", unknown q *)
   let r := [mkseg false [EIdent [97]%N]; mkseg false [EBind [120]%N; EIdent [45]%N; EBind [121]%N]; mkseg true [EBind [122]%N]] in
@@ -29,3 +55,5 @@ Proof. vm_compute. split; reflexivity. Qed.
 
 Redirect "assum/C12.1" Print Assumptions C12_simultaneous.
 Redirect "assum/C12.2" Print Assumptions C12_replacer_is_fill.
+Redirect "assum/C12.3" Print Assumptions C12_inverse.
+Redirect "assum/C12.4" Print Assumptions C12_inverse_values.
